@@ -96,6 +96,15 @@ void h_ctx_deregister(void) { build_api();
     g_dereg_allowed = g_mctx != NULL && g_ctx->state == M_CTX_IDLE;
     int r = m_ctx_deregister();
     V_COVER("dereg-ok", r == 0); V_COVER("dereg-looping", r == -EINVAL); V_COVER("dereg-none", r == -EPIPE && g_tls == NULL); V_CANARY(); }
+#ifdef V_CTXNEW_UNIT
+void h_ctx_new(void) { build_api(); static const char nm[2] = "c";
+    V_ASSUME(vin_nfds <= 0 && vin_nfds > -200 && vin_pw_errno <= 0 && vin_pw_errno > -200);
+    g_tls = NULL; g_pollinit_ret = vin_nfds; g_ips_ret = vin_pw_errno;
+    int r = ctx_new(nm, (m_ctx_flags)vin_cflags, &g_modref);
+    V_COVER("ctxnew-ok", r == 0 && g_tls != NULL); V_COVER("ctxnew-ok-dup-name", r == 0 && (vin_cflags & M_CTX_NAME_DUP)); V_COVER("ctxnew-poll-fails", r != 0 && vin_nfds != 0); V_COVER("ctxnew-fs-fails", r != 0 && vin_nfds == 0 && vin_pw_errno != 0);
+    V_COVER("ctxnew-slot-fails", r != 0 && vin_nfds == 0 && vin_pw_errno == 0);
+    V_CANARY(); }
+#endif
 void h_ctx_register(void) { build_api(); static const char nm[2] = "c", empty[1] = "";
     int r = m_ctx_register(vin_name_kind == 0 ? NULL : vin_name_kind == 1 ? empty : nm, (m_ctx_flags)vin_cflags, NULL);
     V_COVER("reg-eexist", r == -EEXIST); V_COVER("reg-new", vin_tls_kind == 0 && vin_name_kind == 2); V_COVER("reg-badname", r == -EINVAL); V_CANARY(); }
